@@ -34,6 +34,12 @@ type objectSetPhasesReconciler struct {
 	ownerStrategy           ownerStrategy
 	preflightChecker        phasesChecker
 	backoff                 *flowcontrol.Backoff
+	// sliceLoader inlines objects referenced via ObjectSlices before teardown.
+	sliceLoader sliceLoader
+}
+
+type sliceLoader interface {
+	Reconcile(ctx context.Context, objectSet adapters.ObjectSetAccessor) (ctrl.Result, error)
 }
 
 type ownerStrategy interface {
@@ -262,6 +268,13 @@ func (r *objectSetPhasesReconciler) Teardown(
 	// objectSet is deleted with the `orphan` cascade option, so we don't delete the owned objects
 	if controllerutil.ContainsFinalizer(objectSet.ClientObject(), "orphan") {
 		return true, nil
+	}
+
+	// Objects referenced via ObjectSlices have to be torn down, too.
+	if r.sliceLoader != nil {
+		if _, err := r.sliceLoader.Reconcile(ctx, objectSet); err != nil {
+			return false, fmt.Errorf("loading ObjectSlices for teardown: %w", err)
+		}
 	}
 
 	phases := objectSet.GetPhases()
